@@ -212,91 +212,35 @@ namespace MhlModel
 
 /-! ## loading histories -/
 
-/-- the child histories found at or below one child `c` of the folder at `here` (the anonymous `match` of
-`findChildrenList`) -/
-def childHists (here : RelPath) (c : Node) : Except Err (List Hist) :=
-  match c with
-  | .file _ _ => pure []
-  | .dir n _ h =>
-    match h with
+/-- what one child contributes to `findChildrenList`: its name and the child histories found at or below it, or the
+first problem there (the anonymous `match` of `findChildrenList`) -/
+def childPair (here : RelPath) (c : Node) : String × Except Err (List Hist) :=
+  (c.name,
+    match c.hist with
     | some s => do
-      let kids ← findChildren (here ++ [n]) c
-      let hst ← loadOne (here ++ [n]) (some s) kids
-      pure [hst]
-    | none => findChildren (here ++ [n]) c
+      checkStore (some s)
+      let kids ← findChildren (here ++ [c.name]) c
+      pure [buildHist (here ++ [c.name]) (some s) kids]
+    | none => findChildren (here ++ [c.name]) c)
 
-theorem findChildrenList_cons (here : RelPath) (c : Node) (cs : List Node) :
-    findChildrenList here (c :: cs) = (do
-      let r ← childHists here c
-      let rest ← findChildrenList here cs
-      pure ((c.name, r) :: rest)) := by
-  cases c with
-  | file n b => rw [findChildrenList]; rfl
-  | dir n ds h =>
-    cases h with
-    | none => rw [findChildrenList]; rfl
-    | some s => rw [findChildrenList]; simp only [childHists, bind_assoc, pure_bind]
-
-theorem toOption_bind {ε α β : Type} (x : Except ε α) (f : α → Except ε β) :
-    (x >>= f).toOption = x.toOption.bind (fun v => (f v).toOption) := by
-  cases x <;> rfl
-
-theorem toOption_pure {ε α : Type} (v : α) : (pure v : Except ε α).toOption = some v := rfl
-
-/-- what one child contributes to the result of `findChildrenList` -/
-def childEntry (here : RelPath) (c : Node) : Option (String × List Hist) :=
-  (childHists here c).toOption.map fun r => (c.name, r)
-
-theorem findChildrenList_toOption (here : RelPath) (cs : List Node) :
-    (findChildrenList here cs).toOption =
-      if (cs.map (childEntry here)).all Option.isSome then some ((cs.map (childEntry here)).filterMap id)
-      else none := by
+theorem findChildrenList_eq_map (here : RelPath) (cs : List Node) :
+    findChildrenList here cs = cs.map (childPair here) := by
   induction cs with
   | nil => rw [findChildrenList]; rfl
-  | cons c cs ih =>
-    rw [findChildrenList_cons]
-    simp only [toOption_bind, toOption_pure, ih]
-    have hce : childEntry here c = (childHists here c).toOption.map fun r => (c.name, r) := rfl
-    cases hc : (childHists here c).toOption with
-    | none => simp [hce, hc]
-    | some r =>
-      by_cases hall : (cs.map (childEntry here)).all Option.isSome = true
-      · simp only [hall, if_true, List.map_cons, List.all_cons, hce, hc]; simp
-      · simp only [hall, List.map_cons, List.all_cons, hce, hc]; simp
+  | cons c cs ih => rw [findChildrenList, ih]; rfl
 
-theorem findChildren_dir_toOption (here : RelPath) (n : String) (cs : List Node) (h : Option HistStore) :
-    (findChildren here (.dir n cs h)).toOption =
-      (findChildrenList here cs).toOption.map fun found =>
-        (isort (fun a b => strLe a.1 b.1) found).flatMap (·.2) := by
-  rw [findChildren, toOption_bind]
-  cases (findChildrenList here cs).toOption <;> rfl
-
-theorem childEntries_keys_sublist (here : RelPath) (cs : List Node) :
-    (((cs.map (childEntry here)).filterMap id).map Prod.fst).Sublist (cs.map Node.name) := by
-  induction cs with
-  | nil => simp
-  | cons c cs ih =>
-    simp only [List.map_cons, childEntry]
-    cases (childHists here c).toOption with
-    | none => simpa using List.Sublist.cons c.name ih
-    | some r => simpa using List.Sublist.cons_cons c.name ih
+theorem findChildren_dir (here : RelPath) (n : String) (cs : List Node) (h : Option HistStore) :
+    findChildren here (.dir n cs h) =
+      ((isort (fun (a b : String × Except Err (List Hist)) => strLe a.1 b.1) (cs.map (childPair here))).mapM
+        fun (x : String × Except Err (List Hist)) => x.2).map List.flatten := by
+  rw [findChildren, findChildrenList_eq_map]
 
 theorem findChildren_perm_top (here : RelPath) (n : String) {cs₁ cs₂ : List Node} (h : Option HistStore)
     (hp : cs₁.Perm cs₂) (hnd : (cs₁.map Node.name).Nodup) :
-    (findChildren here (.dir n cs₁ h)).toOption = (findChildren here (.dir n cs₂ h)).toOption := by
-  rw [findChildren_dir_toOption, findChildren_dir_toOption, findChildrenList_toOption,
-    findChildrenList_toOption]
-  have hpm : (cs₁.map (childEntry here)).Perm (cs₂.map (childEntry here)) := hp.map _
-  have hall : (cs₁.map (childEntry here)).all Option.isSome = (cs₂.map (childEntry here)).all Option.isSome := by
-    rw [Bool.eq_iff_iff]
-    simp only [List.all_eq_true]
-    exact ⟨fun H x hx => H x (hpm.mem_iff.2 hx), fun H x hx => H x (hpm.mem_iff.1 hx)⟩
-  rw [← hall]
-  split
-  · simp only [Option.map_some]
-    rw [isort_key_eq_of_perm Prod.fst (hpm.filterMap id)]
-    exact (childEntries_keys_sublist here cs₁).nodup hnd
-  · rfl
+    findChildren here (.dir n cs₁ h) = findChildren here (.dir n cs₂ h) := by
+  rw [findChildren_dir, findChildren_dir,
+    isort_key_eq_of_perm (Prod.fst : String × Except Err (List Hist) → String) (hp.map (childPair here))]
+  simpa [Function.comp_def, childPair] using hnd
 
 /-- a node related to a directory is a directory with the same name and the same `ascmhl` folder -/
 theorem PermEq.dir_inv {n : String} {cs : List Node} {h : Option HistStore} {b : Node}
@@ -311,22 +255,8 @@ theorem PermEq.dir_inv {n : String} {cs : List Node} {h : Option HistStore} {b :
     subst h1; subst h3
     exact ⟨cs', rfl⟩
 
-theorem childHists_congr (here : RelPath) {a b : Node} (hab : Node.PermEq a b)
-    (ih : ∀ here, (findChildren here a).toOption = (findChildren here b).toOption) :
-    (childHists here a).toOption = (childHists here b).toOption := by
-  cases a with
-  | file n c =>
-    have := PermEq.eq_of_file hab rfl
-    subst this; rfl
-  | dir n cs h =>
-    obtain ⟨cs', rfl⟩ := PermEq.dir_inv hab
-    cases h with
-    | none => exact ih _
-    | some s =>
-      simp only [childHists, toOption_bind, ih]
-
 theorem findChildren_permEq {a b : Node} (hab : Node.PermEq a b) :
-    a.NamesDistinct → ∀ here, (findChildren here a).toOption = (findChildren here b).toOption := by
+    a.NamesDistinct → ∀ here, findChildren here a = findChildren here b := by
   induction hab with
   | refl => intro _ _; rfl
   | trans h₁ _ ih₁ ih₂ =>
@@ -339,32 +269,16 @@ theorem findChildren_permEq {a b : Node} (hab : Node.PermEq a b) :
   | @congr n pre post h a b hab ih =>
     intro hd here
     rw [Node.namesDistinct_dir] at hd
-    have hk : childEntry here a = childEntry here b := by
-      simp only [childEntry, PermEq.name_eq' hab, childHists_congr here hab (ih (hd.2 a (by simp)))]
-    rw [findChildren_dir_toOption, findChildren_dir_toOption, findChildrenList_toOption,
-      findChildrenList_toOption]
+    have hk : childPair here a = childPair here b := by
+      simp only [childPair, PermEq.name_eq' hab, PermEq.hist_eq hab]
+      rw [← PermEq.name_eq' hab, ih (hd.2 a (by simp))]
+    rw [findChildren_dir, findChildren_dir]
     simp only [List.map_append, List.map_cons, hk]
 
-theorem loadHistory_toOption (t : Node) :
-    (loadHistory t).toOption =
-      (loadOne [] t.hist []).toOption.bind fun root =>
-        (findChildren [] t).toOption.map fun kids =>
-          Hist.mk root.root root.gens root.chain root.folderExists kids := by
-  rw [loadHistory, toOption_bind]
-  congr 1
-  funext root
-  rw [toOption_bind]
-  cases (findChildren [] t).toOption <;> rfl
-
-theorem loadHistory_permEq_toOption {a b : Node} (hab : Node.PermEq a b) (hd : a.NamesDistinct) :
-    (loadHistory a).toOption = (loadHistory b).toOption := by
-  rw [loadHistory_toOption, loadHistory_toOption, PermEq.hist_eq hab, findChildren_permEq hab hd]
-
-theorem toOption_eq_some {ε α : Type} {x : Except ε α} {v : α} : x.toOption = some v ↔ x = .ok v := by
-  cases x <;> simp [Except.toOption]
-
-theorem toOption_eq_none {ε α : Type} {x : Except ε α} : x.toOption = none ↔ ∃ e, x = .error e := by
-  cases x <;> simp [Except.toOption]
+/-- loading the histories does not depend on the listing order: same history, or same error -/
+theorem loadHistory_permEq {a b : Node} (hab : Node.PermEq a b) (hd : a.NamesDistinct) :
+    loadHistory a = loadHistory b := by
+  rw [loadHistory, loadHistory, PermEq.hist_eq hab, findChildren_permEq hab hd]
 
 end MhlModel
 
@@ -551,135 +465,5 @@ theorem flatten_of_load (env : Env) {a b : Node} (ic ifl : List String) (hl : lo
 theorem info_of_load {a b : Node} (hl : loadHistory a = loadHistory b) : info a = info b := by
   unfold info
   rw [hl]
-
-/-- loading the histories of two trees that differ only in the listing order gives the same result, except that when
-both fail the reported error may be that of another damaged history -/
-theorem loadHistory_permEq_cases {a b : Node} (hab : Node.PermEq a b) (hd : a.NamesDistinct) :
-    loadHistory a = loadHistory b ∨
-      ∃ e₁ e₂, e₁ ≠ e₂ ∧ loadHistory a = .error e₁ ∧ loadHistory b = .error e₂ := by
-  have h := loadHistory_permEq_toOption hab hd
-  cases ha : loadHistory a with
-  | ok v =>
-    rw [ha] at h
-    exact Or.inl (toOption_eq_some.1 h.symm).symm
-  | error e₁ =>
-    rw [ha] at h
-    obtain ⟨e₂, hb⟩ := toOption_eq_none.1 h.symm
-    by_cases he : e₁ = e₂
-    · exact Or.inl (by rw [hb, he])
-    · exact Or.inr ⟨e₁, e₂, he, rfl, hb⟩
-
-/-! ## which error is reported -/
-
-theorem bind_eq_error {ε α β : Type} {x : Except ε α} {f : α → Except ε β} {e : ε}
-    (h : (x >>= f) = .error e) : x = .error e ∨ ∃ v, x = .ok v ∧ f v = .error e := by
-  cases x with
-  | error e' =>
-    left
-    have h' : (Except.error e' : Except ε β) = .error e := h
-    cases h'; rfl
-  | ok v => right; exact ⟨v, rfl, h⟩
-
-/-- whether loading one `ascmhl` folder fails does not depend on where it is nor on the child histories -/
-theorem loadOne_error_indep (here : RelPath) (s : HistStore) (kids : List Hist) (e : Err) :
-    loadOne here (some s) kids = .error e → loadOne [] (some s) [] = .error e := by
-  unfold loadOne
-  simp only
-  split
-  · exact id
-  · cases checkChain s with
-    | error e' => exact id
-    | ok u => intro h; cases h
-
-/-- `t.HasFault e`: the `ascmhl` folder of `t` or of one of its descendants fails to load with error `e` -/
-inductive Node.HasFault : Node → Err → Prop
-  | self {n : String} {cs : List Node} {s : HistStore} {e : Err} :
-      loadOne [] (some s) [] = .error e → Node.HasFault (.dir n cs (some s)) e
-  | inside {n : String} {cs : List Node} {h : Option HistStore} {c : Node} {e : Err} :
-      c ∈ cs → Node.HasFault c e → Node.HasFault (.dir n cs h) e
-
-theorem findChildrenList_error {here : RelPath} {cs : List Node} {e : Err}
-    (h : findChildrenList here cs = .error e) : ∃ c ∈ cs, childHists here c = .error e := by
-  induction cs with
-  | nil => rw [findChildrenList] at h; cases h
-  | cons c cs ih =>
-    rw [findChildrenList_cons] at h
-    rcases bind_eq_error h with h | ⟨r, -, h⟩
-    · exact ⟨c, by simp, h⟩
-    · rcases bind_eq_error h with h | ⟨rest, -, h⟩
-      · obtain ⟨c', hc', h'⟩ := ih h
-        exact ⟨c', by simp [hc'], h'⟩
-      · cases h
-
-theorem findChildren_error (t : Node) : ∀ (here : RelPath) (e : Err), findChildren here t = .error e →
-    ∃ c ∈ t.children, Node.HasFault c e := by
-  induction t using Node.induct with
-  | file n c => intro here e h; rw [findChildren] at h; cases h
-  | dir n cs hs ih =>
-    intro here e h
-    rw [findChildren] at h
-    rcases bind_eq_error h with h | ⟨r, -, h⟩
-    · obtain ⟨c, hc, h⟩ := findChildrenList_error h
-      refine ⟨c, hc, ?_⟩
-      cases c with
-      | file m b => cases h
-      | dir m ds hh =>
-        cases hh with
-        | none =>
-          obtain ⟨c', hc', h'⟩ := ih _ hc _ _ h
-          exact .inside hc' h'
-        | some s =>
-          simp only [childHists] at h
-          rcases bind_eq_error h with h | ⟨kids, -, h⟩
-          · obtain ⟨c', hc', h'⟩ := ih _ hc _ _ h
-            exact .inside hc' h'
-          · rcases bind_eq_error h with h | ⟨hst, -, h⟩
-            · exact .self (loadOne_error_indep _ _ _ _ h)
-            · cases h
-    · cases h
-
-theorem loadHistory_error {t : Node} {e : Err} (h : loadHistory t = .error e) : t.HasFault e := by
-  rw [loadHistory] at h
-  rcases bind_eq_error h with h | ⟨root, -, h⟩
-  · cases t with
-    | file n c => cases h
-    | dir n cs hs =>
-      cases hs with
-      | none => cases h
-      | some s => exact .self h
-  · rcases bind_eq_error h with h | ⟨kids, -, h⟩
-    · obtain ⟨c, hc, h'⟩ := findChildren_error t _ _ h
-      cases t with
-      | file n c => simp [Node.children] at hc
-      | dir n cs hs => exact .inside hc h'
-    · cases h
-
-theorem PermEq.hasFault {a b : Node} (hab : Node.PermEq a b) (e : Err) : a.HasFault e → b.HasFault e := by
-  induction hab with
-  | refl => exact id
-  | trans _ _ ih₁ ih₂ => exact fun h => ih₂ (ih₁ h)
-  | perm n h hp =>
-    intro hf
-    cases hf with
-    | self h => exact .self h
-    | inside hc h => exact .inside (hp.mem_iff.1 hc) h
-  | @congr n pre post h a b hab ih =>
-    intro hf
-    cases hf with
-    | self h => exact .self h
-    | @inside _ _ _ c _ hc h =>
-      simp only [List.mem_append, List.mem_cons] at hc
-      rcases hc with hc | rfl | hc
-      · exact .inside (by simp [hc]) h
-      · exact .inside (c := b) (by simp) (ih h)
-      · exact .inside (by simp [hc]) h
-
-/-- if all damaged histories of the tree fail with the same error (in particular if at most one is damaged) the
-result of loading does not depend on the listing order at all -/
-theorem loadHistory_permEq_single_fault {a b : Node} (hab : Node.PermEq a b) (hd : a.NamesDistinct)
-    (h1 : ∀ e₁ e₂, a.HasFault e₁ → a.HasFault e₂ → e₁ = e₂) : loadHistory a = loadHistory b := by
-  rcases loadHistory_permEq_cases hab hd with h | ⟨e₁, e₂, hne, ha, hb⟩
-  · exact h
-  · exact absurd (h1 e₁ e₂ (loadHistory_error ha) (PermEq.hasFault (PermEq.symm' hab) e₂ (loadHistory_error hb))) hne
 
 end MhlModel
